@@ -148,7 +148,14 @@ impl fmt::Display for KNumber {
 
 impl Hash for KNumber {
     fn hash<H: Hasher>(&self, state: &mut H) {
-        state.write_u64(self.to_bits())
+        // Numbers that compare as equal must produce matching hashes (e.g. `1` and `1.0`, or `0.0`
+        // and `-0.0`), so the hash is derived from the number's f64 value.
+        let n = match *self {
+            Self::F64(n) => n,
+            Self::I64(n) => n as f64,
+        };
+        let n = if n == 0.0 { 0.0 } else { n };
+        state.write_u64(n.to_bits())
     }
 }
 
